@@ -1,4 +1,4 @@
-"""KNOWN FINDING *-rerouted-blocked: a customer that is blocked when a pre-emptive 'reroute' shift ends is re-routed at
+"""C01-C05, C07, C12, C14 (D34, formerly listed as findings *-rerouted-blocked; fixed by /repo 49d38f6 (priority reroute) and 4ea2592 (schedule reroute)): a customer that is blocked when a pre-emptive 'reroute' shift ends is re-routed at
 once (ignoring capacities) but stays listed in the blocked queue of its old destination."""
 import ciw
 N = ciw.create_network(
